@@ -1,5 +1,6 @@
 //! pol-check: C22, C23, C24, C28, C30 — bounded exhaustive enumeration of policy programs run on the
 //! real parser + compiler + VM against a reference interpreter written in the harness.
+#![allow(dead_code)]
 mod c22;
 mod c23;
 mod c24;
